@@ -111,17 +111,22 @@ func c18GlobalDate(p *Prog, g *ssa.Global) (y, m, d int64, ok bool) {
 		if !isCall || callName(cl) != "time.Date" {
 			return
 		}
-		var v [3]int64
-		for i := 0; i < 3; i++ {
-			k, okk := constInt(cl.Call.Args[i])
-			if !okk {
-				return
-			}
-			v[i] = k
-		}
-		return v[0], v[1], v[2], true
+		return c18ConstDate(cl)
 	}
 	return
+}
+
+// c18ConstDate: year, month, day of a time.Date call whose first three arguments are constants.
+func c18ConstDate(call ssa.CallInstruction) (y, m, d int64, ok bool) {
+	var v [3]int64
+	for i := 0; i < 3; i++ {
+		k, okk := constInt(call.Common().Args[i])
+		if !okk {
+			return
+		}
+		v[i] = k
+	}
+	return v[0], v[1], v[2], true
 }
 
 func runC18(c *Ctx) {
@@ -257,6 +262,67 @@ func runC18(c *Ctx) {
 			}
 		}
 		if gcall == nil {
+			// the same three tests written inline in ExtractTimeRange?
+			selOK, joinOK, commaOK := len(rets) > 0, len(rets) > 0, false
+			var selCall, joinCall *ssa.Call
+			for _, call := range callsIn(ext, false) {
+				cl, ok := call.(*ssa.Call)
+				if !ok || !strings.HasPrefix(callName(cl), "(*regexp.Regexp).") {
+					if callName(call) == "strings.Contains" || callName(call) == "strings.ContainsRune" || callName(call) == "strings.IndexByte" {
+						for _, a := range call.Common().Args {
+							if sv, ok := constString(a); ok && sv == "," {
+								commaOK = true
+							}
+							if k, ok := constInt(a); ok && k == ',' {
+								commaOK = true
+							}
+						}
+					}
+					continue
+				}
+				g := c18GlobalOf(cl.Call.Args[0])
+				if g == nil {
+					continue
+				}
+				r, ok := byName[g.Name()]
+				if !ok {
+					continue
+				}
+				if r.re.MatchString("SELECT") && !r.re.MatchString("xSELECTx") && strings.Contains(callName(cl), "FindAll") {
+					selCall = cl
+				}
+				if r.re.MatchString("JOIN") && !r.re.MatchString("xJOINx") && !r.re.MatchString("SELECT") {
+					joinCall = cl
+				}
+			}
+			for _, r := range rets {
+				if joinCall == nil || !guardedFalse(r, joinCall) {
+					joinOK = false
+				}
+				one := false
+				if selCall != nil {
+					for _, f := range factsAt(r) {
+						if f.Kind != factCmp || f.Op != token.EQL {
+							continue
+						}
+						if k, ok := constInt(f.Y); !ok || k != 1 {
+							continue
+						}
+						if ln, ok := f.X.(*ssa.Call); ok {
+							if b, ok := ln.Call.Value.(*ssa.Builtin); ok && b.Name() == "len" && ln.Call.Args[0] == ssa.Value(selCall) {
+								one = true
+							}
+						}
+					}
+				}
+				if !one {
+					selOK = false
+				}
+			}
+			if selOK && joinOK && commaOK {
+				c.OK("C18.SINGLE", "ExtractTimeRange|single-source-guard-inline", ext.Pos(), "one SELECT, no JOIN, comma test — written inline")
+				goto singleDone
+			}
 			c.Bad("C18.SINGLE", "ExtractTimeRange|single-source-guard", ext.Pos(), "ExtractTimeRange returns a range for statements that read several sources: OptimizeTablePath applies it to every table rewritten in the statement, so in `cpu c JOIN mem m … WHERE m.time >= x`, `cpu WHERE host IN (SELECT host FROM mem WHERE time >= x)` or a CTE over another measurement, rows of the other table outside the range are lost")
 		} else {
 			usesRegex := func(probe string, methods ...string) bool {
@@ -299,11 +365,18 @@ func runC18(c *Ctx) {
 		}
 	}
 
+singleDone:
 	// ---- OPEN
 	{
 		for _, call := range callsIn(ext, true) {
 			switch callName(call) {
-			case "time.Now", "time.Date", "time.Unix", "time.UnixMilli", "time.UnixMicro":
+			case "time.Date":
+				// a constant date is judged below, where it is stored as a bound
+				if _, _, _, ok := c18ConstDate(call); ok {
+					continue
+				}
+				fallthrough
+			case "time.Now", "time.Unix", "time.UnixMilli", "time.UnixMicro":
 				c.Bad("C18.OPEN", "ExtractTimeRange|invents-bound:"+callName(call), call.Pos(), "ExtractTimeRange builds a bound with %s: a range limit the query does not state (now+24h above, a fixed \"beginning of data\" date below) drops every row beyond it — future-stamped rows for `time >= x`, rows older than the constant for `time < x`", callName(call))
 			}
 		}
@@ -317,15 +390,23 @@ func runC18(c *Ctx) {
 			if !ok || sn != "TimeRange" {
 				continue
 			}
-			g := c18GlobalOf(st.Val)
-			if g == nil {
+			var y, m, d int64
+			var construct string
+			if g := c18GlobalOf(st.Val); g != nil {
+				construct = "ExtractTimeRange|sentinel:" + field + "=" + g.Name()
+				y, m, d, ok = c18GlobalDate(p, g)
+				if !ok {
+					c.Unk("C18.OPEN", construct, st.Pos(), "cannot evaluate the initialiser of %s", g.Name())
+					continue
+				}
+			} else if cl, isCall := st.Val.(*ssa.Call); isCall && callName(cl) == "time.Date" {
+				construct = "ExtractTimeRange|sentinel:" + field + "=inline-date"
+				y, m, d, ok = c18ConstDate(cl)
+				if !ok {
+					continue // reported above as an invented bound
+				}
+			} else {
 				n++
-				continue
-			}
-			y, m, d, ok := c18GlobalDate(p, g)
-			construct := "ExtractTimeRange|sentinel:" + field + "=" + g.Name()
-			if !ok {
-				c.Unk("C18.OPEN", construct, st.Pos(), "cannot evaluate the initialiser of %s", g.Name())
 				continue
 			}
 			switch field {
